@@ -129,11 +129,15 @@ ALPHA = "a" + chr(34) + chr(39)
 
 
 K = int(os.environ.get("VERIF_K", "0"))  # which lookup (concrete per process)
+D = int(os.environ.get("VERIF_DEPTH", "0"))  # thorough tier: deeper bounds (per process)
+N_ANY = 3 + D    # identifier length, any character
+N_Q = 4 + D      # identifier length over {a, ", '}
+N_DIR = 2 + D
 
 
 def lookup_query(name: str) -> bool:
     """
-    pre: 1 <= len(name) <= 3 and all(32 <= ord(ch) < 55296 for ch in name)
+    pre: 1 <= len(name) <= N_ANY and all(32 <= ord(ch) < 55296 for ch in name)
     post: _
     """
     # any XML-legal characters, quotes and apostrophes included
@@ -145,7 +149,7 @@ def lookup_query(name: str) -> bool:
 
 def lookup_query6(name: str) -> bool:
     """
-    pre: 4 <= len(name) <= 4 and all(ch in ALPHA for ch in name)
+    pre: N_Q <= len(name) <= N_Q and all(ch in ALPHA for ch in name)
     post: _
     """
     fn, prefix, suffix = LOOKUPS[K]
@@ -156,7 +160,7 @@ def lookup_query6(name: str) -> bool:
 
 def direct_query(name: str, other: str) -> bool:
     """
-    pre: 1 <= len(name) <= 2 and all(32 <= ord(ch) < 55296 for ch in name) and len(other) <= 1 and all(32 <= ord(ch) < 55296 for ch in other)
+    pre: 1 <= len(name) <= N_DIR and all(32 <= ord(ch) < 55296 for ch in name) and len(other) <= N_DIR - 1 and all(32 <= ord(ch) < 55296 for ch in other)
     post: _
     """
     # two predicates at once: the second identifier must not disturb the first (sorted attributes)
@@ -187,7 +191,7 @@ def position_query(position: int) -> bool:
 
 def named_range_query(name: str) -> bool:
     """
-    pre: 1 <= len(name) <= 3
+    pre: 1 <= len(name) <= N_ANY
     post: _
     """
     # get_named_range formats its own predicate.  Only names the NamedRange.name setter accepts
@@ -202,7 +206,7 @@ def named_range_query(name: str) -> bool:
 
 def manifest_query(path: str, which: int) -> bool:
     """
-    pre: 1 <= len(path) <= 3 and 0 <= which <= 1
+    pre: 1 <= len(path) <= N_ANY and 0 <= which <= 1
     post: _
     """
     m = CapManifest()
